@@ -31,12 +31,11 @@ PARTIAL = [
     "auto_bisc (returned description coincides with the property on every permutation up to length 8) - not "
     "modelled in Lean (its choice bases[0] depends on CPython set order); evaluated by the brute-force oracle on "
     "four shipped properties in the thorough tier only",
-    "list_order_independence (a list input in any order gives the same canonical output) - evaluated on shuffled "
-    "lists; C17.rep_independent is proved for the canonical (length, lexicographic) listing only",
-    "hitting_order_independence (the canonicalised output of rec_w_reduce_pattern_pos does not depend on which "
-    "free cell `for b in lst0` meets first; CPython iterates a set in hash order, the model in list order) - "
-    "correspondence only; note that C17.hitting_sound / bisc_sound / bisc_complete / bisc_irredundant hold for the "
-    "model's choice",
+    "order independence is PROVED for the model (C17.list_order_independence, forb_mine_order_independence, "
+    "hitting_order_independence, forb_choice_independence: every execution of forb - any free cell branched on in "
+    "any call - on any rearrangement of the input prints the same canonical line); what stays correspondence-only is "
+    "that CPython's actual choices are among the runs of the relation Model.C17.HitRun (B is some cell of lst0 outside "
+    "forb) - evaluated on shuffled lists and on the implementation's real set order",
     "to_sg_format / run_clean_up error branches - correspondence only",
 ]
 TRUSTED = [
